@@ -50,6 +50,8 @@ pub mod policy {
         pub use crate::util::linear_scan::Region;
     }
     pub use crate::policy::marksweepspace::native_ms::verif as native_ms;
+    #[cfg(feature = "vo_bit")]
+    pub use crate::policy::largeobjectspace::verif_find_object_from_internal_pointer as los_find_object_from_internal_pointer;
 }
 
 /// Lock-free per-object protocols (`util::object_forwarding` and the `*_bit` modules are `pub(crate)`).
